@@ -6,6 +6,7 @@ CONSTANTS
  HashSession = FALSE
  HashId = TRUE
  DedupMode = "peer+id"
+ AllowRelay = TRUE
  MCCfgs <- Cfg3
  Bodies = {x}
  MaxFSig = 2
